@@ -266,6 +266,15 @@ func (w *World) operandComparisons(h *ssa.Function, left, right ssa.Value) []ope
 				}
 				cv, cx, cy, cop = x, x.X, x.Y, x.Op
 			case *ssa.Call:
+				// a comparator of the package parameterised by constants (`lessThan(l, r, orEqual)` with orEqual a
+				// parameter the delegating handler binds to a constant)
+				if g2 := x.Call.StaticCallee(); g2 != nil && fnPkgKey(g2) == "exec" && !x.Call.IsInvoke() {
+					if bop, xi, yi, ok := comparatorUnder(x, g2); ok && isCmpOp(bop) {
+						cv, cx, cy, cop = x, x.Call.Args[xi], x.Call.Args[yi], bop
+						break
+					}
+					return
+				}
 				// the operator handed in as a function value (`cmp(l, r)` with cmp bound to
 				// func(l, r float64) bool { return l < r })
 				if staticCallee(x) != nil || x.Call.IsInvoke() || len(x.Call.Args) != 2 || cmpBind == nil {
@@ -440,6 +449,17 @@ func checkC05(w *World) {
 		}
 		hh := h
 		cmpBind = func(v ssa.Value) *ssa.Function { return hh.boundFunc(v) }
+		cmpConst = func(v ssa.Value) (bool, bool) {
+			if k, ok := v.(*ssa.Const); ok && k.Value != nil && k.Value.Kind() == constant.Bool {
+				return constant.BoolVal(k.Value), true
+			}
+			if p, ok := v.(*ssa.Parameter); ok && hh.ParamBind != nil {
+				if k, ok := hh.ParamBind[p].(*ssa.Const); ok && k.Value != nil && k.Value.Kind() == constant.Bool {
+					return constant.BoolVal(k.Value), true
+				}
+			}
+			return false, false
+		}
 		left, right, ph, why := w.operandsOf(h.Fn)
 		if why != "" {
 			w.undecided(P, "R05.0", "operands of "+nt, h.Fn.Pos(), why)
@@ -647,6 +667,11 @@ func (w *World) existentialShape(c operandCmp, r *Roles) (bool, string) {
 			}
 		}
 		if !storesTrue || !returns {
+			// flag form: the true edge leaves the loop and sets a boolean variable (a phi that receives the constant
+			// true on this path and false on the others) which is what is stored as the result after the loop
+			if ok, why := w.flagFormExistential(ifi, r, ridx); ok {
+				return true, why
+			}
 			return false, fmt.Sprintf("true edge of the in-loop comparison stores true: %v, returns: %v", storesTrue, returns)
 		}
 		// the false edge must stay in the loop (not store)
@@ -815,11 +840,9 @@ func closureUseSite(lit *ssa.Function) *ssa.Call {
 	allInstrs(lit.Parent(), func(in ssa.Instruction) {
 		mc, ok := in.(*ssa.MakeClosure)
 		if ok && mc.Fn == ssa.Value(lit) {
-			for _, rr := range referrers(mc) {
-				if c, ok := rr.(*ssa.Call); ok {
-					site = c
-					n++
-				}
+			for _, c := range closureArgCalls(mc) {
+				site = c
+				n++
 			}
 		}
 		// a literal without free variables is a plain function value
@@ -859,7 +882,7 @@ func existentialHelper(fn *ssa.Function) bool {
 		if constant.BoolVal(c.Value) {
 			// reached on the true edge of match(element)
 			for _, a := range guardAtoms(ret.Block()) {
-				if call, ok := a.V.(*ssa.Call); ok && a.Pol && staticCallee(call) == nil {
+				if call, ok := a.V.(*ssa.Call); ok && a.Pol && call.Call.StaticCallee() == nil && !call.Call.IsInvoke() {
 					if _, isParam := call.Call.Value.(*ssa.Parameter); isParam {
 						trueOnMatch = true
 					}
@@ -900,4 +923,166 @@ func typePredicate(fn *ssa.Function) types.Type {
 		}
 	}
 	return t
+}
+
+// flagFormExistential: `for ... { if cmp { holds = true; break } }; result = Bool(holds)`.
+func (w *World) flagFormExistential(ifi *ssa.If, r *Roles, ridx int) (bool, string) {
+	fn := ifi.Parent()
+	loops := loopBlocks(fn)
+	// follow the true edge through empty jump blocks out of the loop
+	prev, b := ifi.Block(), ifi.Block().Succs[0]
+	for steps := 0; steps < 6; steps++ {
+		hasPhi := false
+		for _, in := range b.Instrs {
+			if _, ok := in.(*ssa.Phi); ok {
+				hasPhi = true
+			}
+		}
+		if hasPhi && !loops[b] {
+			break
+		}
+		if len(b.Succs) != 1 {
+			return false, ""
+		}
+		for _, in := range b.Instrs {
+			switch in.(type) {
+			case *ssa.Jump, *ssa.DebugRef, *ssa.Phi:
+			default:
+				return false, ""
+			}
+		}
+		prev, b = b, b.Succs[0]
+	}
+	if loops[b] {
+		return false, ""
+	}
+	isBoolConst := func(v ssa.Value, want bool) bool {
+		c, ok := v.(*ssa.Const)
+		return ok && c.Value != nil && c.Value.Kind() == constant.Bool && constant.BoolVal(c.Value) == want
+	}
+	for _, in := range b.Instrs {
+		ph, ok := in.(*ssa.Phi)
+		if !ok {
+			continue
+		}
+		mine := false
+		othersOK := true
+		for i, p := range b.Preds {
+			if p == prev {
+				mine = isBoolConst(ph.Edges[i], true)
+				continue
+			}
+			// the ways out of a loop that did not find a match carry false (or the flag as it stood, itself a phi of
+			// constants); what the other arms of the cascade contribute is their own business
+			e := ph.Edges[i]
+			if isBoolConst(e, false) || !loops[p] {
+				continue
+			}
+			if inner, isPhi := e.(*ssa.Phi); isPhi {
+				allConst := true
+				for _, ie := range inner.Edges {
+					if _, isC := ie.(*ssa.Const); !isC && ie != ssa.Value(inner) {
+						if _, isP := ie.(*ssa.Phi); !isP {
+							allConst = false
+						}
+					}
+				}
+				if allConst {
+					continue
+				}
+			}
+			othersOK = false
+		}
+		if !mine || !othersOK {
+			continue
+		}
+		// the flag is what gets stored (or handed back) as the answer
+		seen := map[ssa.Value]bool{}
+		var flows func(v ssa.Value, depth int) bool
+		flows = func(v ssa.Value, depth int) bool {
+			if seen[v] || depth > 8 {
+				return false
+			}
+			seen[v] = true
+			for _, rr := range referrers(v) {
+				switch x := rr.(type) {
+				case *ssa.Phi, *ssa.ChangeType, *ssa.MakeInterface:
+					if flows(x.(ssa.Value), depth+1) {
+						return true
+					}
+				case *ssa.Store:
+					if fa, ok := x.Addr.(*ssa.FieldAddr); ok && fa.Field == r.CtxResultField && x.Val == v {
+						return true
+					}
+				case *ssa.Return:
+					if ridx >= 0 && ridx < len(x.Results) && x.Results[ridx] == v {
+						return true
+					}
+				}
+			}
+			return false
+		}
+		if flows(ph, 0) {
+			return true, "on the first match a flag is set to true and the loop is left; the flag (false otherwise) is stored as the result"
+		}
+	}
+	return false, ""
+}
+
+// cmpConst resolves a boolean argument to the constant it has for the handler being checked (a literal, or a parameter
+// of a generic handler that the registered one-line handler binds to a constant).
+var cmpConst func(ssa.Value) (bool, bool)
+
+// comparatorUnder: g returns one comparison of two of its parameters, possibly selected by boolean parameters whose
+// arguments at this call are constants for the handler being checked: the operator and the positions of its operands.
+func comparatorUnder(c *ssa.Call, g *ssa.Function) (token.Token, int, int, bool) {
+	if len(g.Blocks) == 0 || len(g.Blocks) > 8 || g.Signature.Results().Len() != 1 || cmpConst == nil {
+		return 0, 0, 0, false
+	}
+	idxOf := func(v ssa.Value) int {
+		for i, p := range g.Params {
+			if ssa.Value(p) == v {
+				return i
+			}
+		}
+		return -1
+	}
+	b := g.Blocks[0]
+	for steps := 0; steps < 8; steps++ {
+		switch t := b.Instrs[len(b.Instrs)-1].(type) {
+		case *ssa.If:
+			cond, pol := t.Cond, true
+			if u, ok := cond.(*ssa.UnOp); ok && u.Op == token.NOT {
+				cond, pol = u.X, false
+			}
+			i := idxOf(cond)
+			if i < 0 || i >= len(c.Call.Args) {
+				return 0, 0, 0, false
+			}
+			val, ok := cmpConst(c.Call.Args[i])
+			if !ok {
+				return 0, 0, 0, false
+			}
+			if val == pol {
+				b = b.Succs[0]
+			} else {
+				b = b.Succs[1]
+			}
+		case *ssa.Jump:
+			b = b.Succs[0]
+		case *ssa.Return:
+			bo, ok := t.Results[0].(*ssa.BinOp)
+			if !ok {
+				return 0, 0, 0, false
+			}
+			xi, yi := idxOf(bo.X), idxOf(bo.Y)
+			if xi < 0 || yi < 0 || xi >= len(c.Call.Args) || yi >= len(c.Call.Args) {
+				return 0, 0, 0, false
+			}
+			return bo.Op, xi, yi, true
+		default:
+			return 0, 0, 0, false
+		}
+	}
+	return 0, 0, 0, false
 }
